@@ -334,6 +334,15 @@ impl ServerState {
     /// this process until `is_compiling` becomes false.
     pub async fn wait_for_parsing(&self) {
         loop {
+            // Register for the notification *before* inspecting the state. A `Notified` future only
+            // observes the `notify_waiters()` calls made after it was created: if it were created
+            // after the checks, the compilation thread could finish and notify in between, and we
+            // would wait for a notification that never comes.
+            #[cfg(fuellabs_sway_verif)]
+            crate::verif::point("Q", "register", 0);
+            let mut notified = std::pin::pin!(self.finished_compilation.notified());
+            notified.as_mut().enable();
+
             // Check both the is_compiling flag and the last_compilation_state.
             // Wait if is_compiling is true or if the last_compilation_state is Uninitialized.
             #[cfg(fuellabs_sway_verif)]
@@ -352,7 +361,7 @@ impl ServerState {
             // We are still compiling, lets wait to be notified.
             #[cfg(fuellabs_sway_verif)]
             crate::verif::point("Q", "await", 0);
-            self.finished_compilation.notified().await;
+            notified.await;
             #[cfg(fuellabs_sway_verif)]
             crate::verif::point("Q", "woke", 0);
         }
